@@ -6,7 +6,9 @@ import sys
 
 logging.disable(logging.CRITICAL)
 
-from experimaestro import experiment, RunMode  # noqa: E402
+from pathlib import Path  # noqa: E402
+
+from experimaestro import experiment, RunMode, state_dict, from_state_dict, save, load, from_task_dir  # noqa: E402
 from experimaestro.core.objects import ConfigInformation, ObjectStore  # noqa: E402
 from experimaestro.core.context import SerializationContext  # noqa: E402
 import experimaestro.run as xpmrun  # noqa: E402
@@ -134,9 +136,47 @@ def run_params(case):
                 order=[node_of_cfg.get(d["id"], -1) for d in definitions], n_loaded=len(loaded))
 
 
-def run_case(case):
+def run_loader(case, wd):
+    """the other public loaders that return runtime objects (as_instance=True): from_state_dict on a state
+    dictionary, load on a saved definition.json, from_task_dir on the params.json of the task's directory"""
+    objs = build(case)
+    node_of_cfg = {id(o): n for n, o in objs.items()}
+    root = objs[case["root"]]
+    which = case.get("loader") or "state"
+    del _captured[:]
+    with_init = False
+    if which == "taskdir":
+        try:
+            root.submit(run_mode=RunMode.GENERATE_ONLY, init_tasks=[objs[j] for j in case["nodes"][case["root"]]["init"]])
+            with_init = True
+        except RecursionError:
+            # a cyclic graph has no task directory; submit() has attached the init tasks before failing
+            which = "state"
+            with_init = True
+    del S.LOG[:]
+    if which == "taskdir":
+        ret = from_task_dir(root.__xpm__.job.path, as_instance=True)
+    elif which == "load":
+        d = Path(wd) / "saved"
+        d.mkdir(parents=True, exist_ok=True)
+        save(root, d)
+        del S.LOG[:]
+        ret = load(d, as_instance=True)
+    else:
+        state = json.loads(json.dumps(state_dict(SerializationContext(), root)))
+        del S.LOG[:]
+        ret = from_state_dict(state, as_instance=True)
+    log = list(S.LOG)
+    loaded = _captured[-1]
+    obj_of_node = {node_of_cfg[i]: o for i, o in loaded.items() if i in node_of_cfg}
+    objects, name_of = canon_objects(obj_of_node)
+    return dict(objects=objects, log=canon_log(log, name_of), how=which, with_init=with_init,
+                returned=name_of.get(id(ret), -1), n_loaded=len(loaded))
+
+
+def run_case(case, wd="."):
     try:
-        return dict(instance=run_instance(case), params=run_params(case))
+        return dict(instance=run_instance(case), params=run_params(case), loader=run_loader(case, wd))
     except Exception as e:  # noqa
         import traceback
         return dict(error=f"{type(e).__name__}: {e}", tb=traceback.format_exc()[-1500:])
@@ -162,7 +202,7 @@ def main():
     with experiment(wd, "c13", port=-1):
         pr = probe_once()
         for c in payload["cases"]:
-            res.append(run_case(c))
+            res.append(run_case(c, wd))
     print(json.dumps(dict(answers=res, probe=pr)))
 
 
